@@ -6,6 +6,6 @@ PROFILE = {'p_write': 0.35, 'getter_bias': 0.8}
 
 
 def main(tier, seed):
-    return dbtie.db_check("C07", tier, seed, PROFILE, 300, 6000, "Prop_C07",
+    return dbtie.db_check("C07", tier, seed, PROFILE, 400, 6000, "Prop_C07",
                           "user callables and re are an environment the theorems quantify over; the tie instantiates them with the twin table")
 
